@@ -501,6 +501,16 @@ func (h *simHandler) LeafPing(fctx frugal.FContext, s string) (string, error) {
 	}
 	return p.ret.(string), nil
 }
+func (h *simHandler) Shapes2(fctx frugal.FContext, d *simsvc.Deepish) (*simsvc.Deepish, error) {
+	p, err := h.enter(fctx, "shapes2", d)
+	if err != nil {
+		return nil, err
+	}
+	if p.outcome == "ex1" {
+		return nil, p.ret.(*simsvc.Loaded)
+	}
+	return p.ret.(*simsvc.Deepish), nil
+}
 func (h *simHandler) Many(fctx frugal.FContext, n int32) ([]*simsvc.Item, error) {
 	p, err := h.enter(fctx, "many", n)
 	if err != nil {
@@ -613,6 +623,8 @@ func (env *e2eEnv) invoke(p *callPlan) {
 	case "shapes":
 		a := p.args
 		p.gotRet, p.gotErr = c.Shapes(ctx, a[0].(simsvc.Deep), a[1].(*simsvc.Odd), a[2].(simsvc.Paint), a[3].(int16), a[4].(int8), a[5].(float64), a[6].(string), a[7].(string), a[8].([][]byte), a[9].(map[simsvc.Paint]string), a[10].(*simsvc.Choice))
+	case "shapes2":
+		p.gotRet, p.gotErr = c.Shapes2(ctx, p.args[0].(*simsvc.Deepish))
 	case "leafPing":
 		p.gotRet, p.gotErr = c.LeafPing(ctx, p.args[0].(string))
 	case "many":
